@@ -6,6 +6,7 @@ package codecmc
 import (
 	"bytes"
 	"fmt"
+	"strings"
 
 	"github.com/youzan/ZanRedisDB/raft/raftpb"
 	"github.com/youzan/ZanRedisDB/transport/rafthttp"
@@ -232,11 +233,15 @@ func RunSizes(col *ev.Collector) Stats {
 		second := raftpb.Message{Type: raftpb.MsgApp, From: 1, To: 2, FromGroup: p[0], ToGroup: p[1], Term: 1, LogTerm: 1, Index: 1, Entries: append(ents(1, 1, 1, size), ents(2, 1, 1, 3)...), Commit: 1}
 		third := raftpb.Message{Type: raftpb.MsgApp, From: 1, To: 2, FromGroup: p[0], ToGroup: p[1], Term: 1, LogTerm: 1, Index: 3, Entries: ents(3, 1, 1, 2), Commit: 3}
 		for n, m := range []raftpb.Message{first, second, third} {
-			if err := enc.Encode(&m); err != nil {
+			if perr := safely(func() error { return enc.Encode(&m) }); perr != nil && strings.HasPrefix(perr.Error(), "panic") {
+				col.Add(ev.Violation{Property: "C16", Signature: "C16|v2|size|codec-panics", What: fmt.Sprintf("entry payload %d bytes, message %d: %v", size, n, perr)})
+				break
+			} else if err := perr; err != nil {
 				col.Add(ev.Violation{Property: "C16", Signature: "C16|v2|size|encode-error", What: fmt.Sprintf("payload %d message %d: %v", size, n, err)})
 				continue
 			}
-			got, err := dec.Decode()
+			var got raftpb.Message
+			err := safely(func() (e error) { got, e = dec.Decode(); return })
 			st.Transitions++
 			if err != nil || !same(&got, &m) {
 				col.Add(ev.Violation{Property: "C16", Signature: "C16|v2|size|round-trip", What: fmt.Sprintf("entry payload %d bytes, message %d of the stream: sent {%s} received {%s} err %v", size, n, desc(&m), desc(&got), err)})
@@ -254,6 +259,15 @@ func RunSizes(col *ev.Collector) Stats {
 		}
 	}
 	return st
+}
+
+func safely(f func() error) (err error) {
+	defer func() {
+		if r := recover(); r != nil {
+			err = fmt.Errorf("panic: %v", r)
+		}
+	}()
+	return f()
 }
 
 // ---- corruption --------------------------------------------------------------------------
